@@ -215,6 +215,9 @@ theorem wf_step (s s' : State) (op : Op) (h : WF s) (hs : step s op = .ok s') : 
   | updateParams authority p =>
     rw [(updateParams_ok hs).2]
     exact wf_of_lookups h (fun _ => rfl) (fun _ => rfl)
+  | evmTx target logs =>
+    have f := logs_frame (evmTx_ok hs)
+    exact wf_of_lookups h (fun _ => by rw [f.tokens]) (fun _ => by rw [f.minUnits])
 
 theorem wf_apply (s : State) (op : Op) (h : WF s) : WF (apply s op) := by
   unfold apply
@@ -305,6 +308,9 @@ theorem change_step (s s' : State) (op : Op) (h : WF s) (hs : step s op = .ok s'
   | updateParams authority p =>
     rw [(updateParams_ok hs).2]
     exact .same (fun _ => rfl) (fun _ => rfl)
+  | evmTx target logs =>
+    have f := logs_frame (evmTx_ok hs)
+    exact .same (fun _ => by rw [f.tokens]) (fun _ => by rw [f.minUnits])
 
 theorem keeps_refl (s : State) : Keeps s s :=
   ⟨fun _ t ht => ⟨t, ht, rfl, rfl, rfl⟩, fun _ _ hm => hm⟩
@@ -607,6 +613,7 @@ theorem good_step (s s' : State) (op : Op) (h : Good s) (hop : isC09Op op = true
   | hookSwap _ _ _ _ => cases hop
   | evmFault _ => cases hop
   | updateParams _ _ => cases hop
+  | evmTx _ _ => cases hop
 
 theorem good_apply (s : State) (op : Op) (h : Good s) (hop : isC09Op op = true) : Good (apply s op) := by
   unfold apply
@@ -738,6 +745,9 @@ theorem burned_step (s s' : State) (op : Op) (hs : step s op = .ok s') (d : Stri
     rcases h3 with ⟨rfl, _⟩ | ⟨sym, t, _, _, _, _, rfl⟩ <;> rfl
   | evmFault mode => rw [evmFault_ok hs]; rfl
   | updateParams authority p => rw [(updateParams_ok hs).2]; rfl
+  | evmTx target logs =>
+    have f := logs_frame (evmTx_ok hs)
+    simp only [burnedOf, burnAdds, f.burned, Nat.add_zero]
 
 theorem burnSum_cons (d : String) (s : State) (op : Op) (rest : List Op) :
     burnSum d s (op :: rest) =
@@ -1025,6 +1035,9 @@ theorem ownidx_step (s s' : State) (op : Op) (hwf : WF s) (h : OwnIdx s) (hs : s
     · exact ownidx_of_same h rfl rfl
   | evmFault mode => rw [evmFault_ok hs]; exact ownidx_of_same h rfl rfl
   | updateParams authority p => rw [(updateParams_ok hs).2]; exact ownidx_of_same h rfl rfl
+  | evmTx target logs =>
+    have f := logs_frame (evmTx_ok hs)
+    exact ownidx_of_same h f.tokens f.owners
 
 theorem ownidx_genesis (bank : Bank) (p : Params) (env : Env) : OwnIdx (genesis bank p env) := by
   constructor
